@@ -508,3 +508,157 @@ func verifH_c05_scalarmult() {
 	c05CheckMultiple(r, k, "ScalarMult")
 	verifReach("end")
 }
+
+// ---- field mode: decoders and the Go-level field/scalar helpers ---------------------------------------
+// Field multiplication, squaring and the conversion out of the Montgomery domain are uninterpreted
+// functions of the operand limbs (assembly, outside); range checks, additions, byte handling and the
+// control flow of the decoders are the real Go code.
+
+func verifModel_p256Mul(res, in1, in2 *p256Element) {
+	c05SetElem(res, verifUF("fmul", 32, c05ElemBytes(in1), c05ElemBytes(in2)))
+}
+
+func verifModel_p256Sqr(res, in *p256Element, n int) {
+	v := c05ElemBytes(in)
+	for i := 0; i < n; i++ {
+		v = verifUF("fmul", 32, v, v)
+	}
+	c05SetElem(res, v)
+}
+
+func verifModel_p256FromMont(res, in *p256Element) {
+	c05SetElem(res, verifUF("ffrommont", 32, c05ElemBytes(in)))
+}
+
+var c05PBytes = []byte{0xFF, 0xFF, 0xFF, 0xFE, 0xFF, 0xFF, 0xFF, 0xFF, 0xFF, 0xFF, 0xFF, 0xFF, 0xFF, 0xFF, 0xFF, 0xFF,
+	0xFF, 0xFF, 0xFF, 0xFF, 0x00, 0x00, 0x00, 0x00, 0xFF, 0xFF, 0xFF, 0xFF, 0xFF, 0xFF, 0xFF, 0xFF}
+var c05NBytes = []byte{0xFF, 0xFF, 0xFF, 0xFE, 0xFF, 0xFF, 0xFF, 0xFF, 0xFF, 0xFF, 0xFF, 0xFF, 0xFF, 0xFF, 0xFF, 0xFF,
+	0x72, 0x03, 0xDF, 0x6B, 0x21, 0xC6, 0x05, 0x2B, 0x53, 0xBB, 0xF4, 0x09, 0x39, 0xD5, 0x41, 0x23}
+
+func c05WideLess(a, b []byte) bool {
+	d := verifWideSub(append([]byte{0}, a...), append([]byte{0}, b...))
+	return d[0] != 0
+}
+
+// SetBytes on every byte string of length n: a point comes back only for the documented forms with every
+// coordinate below p (out-of-range coordinates are rejected); other lengths and tags are refused.
+func verifH_c05_decode() {
+	n := verifParam("n")
+	b := verifBytes("enc", n)
+	keep := append([]byte(nil), b...)
+	if !verifSymbolic() {
+		// native instance finder: the encoding of a real point with p added to a coordinate where it fits
+		c05NativeDecode(n, keep)
+		verifReach("end")
+		return
+	}
+	c05FieldMode = true
+	p, err := new(SM2P256Point).SetBytes(b)
+	verifAssert(verifEqBytes(b, keep), "the input is not modified")
+	if err == nil {
+		verifAssert(p != nil, "a point comes back")
+		switch n {
+		case 1:
+			verifAssert(keep[0] == 0, "a single byte decodes only as the point at infinity")
+		case 33:
+			verifAssert(verifAny(keep[0] == 2, keep[0] == 3), "33 bytes decode only with tag 02/03")
+			verifAssert(c05WideLess(keep[1:33], c05PBytes), "compressed form: an abscissa of p or above is rejected")
+		case 65:
+			verifAssert(keep[0] == 4, "65 bytes decode only with tag 04")
+			verifAssert(c05WideLess(keep[1:33], c05PBytes), "uncompressed form: an abscissa of p or above is rejected")
+			verifAssert(c05WideLess(keep[33:65], c05PBytes), "uncompressed form: an ordinate of p or above is rejected")
+		default:
+			verifAssert(false, "only 1-, 33- and 65-byte strings decode")
+		}
+		verifReach("accepted")
+	}
+	verifReach("end")
+}
+
+func c05NativeDecode(n int, seed []byte) {
+	if n != 33 && n != 65 {
+		_, err := new(SM2P256Point).SetBytes(seed)
+		verifAssert(err != nil || (n == 1 && seed[0] == 0), "only 1-, 33- and 65-byte strings decode")
+		return
+	}
+	// small multiples of G have no structure in their coordinates; points with a small coordinate are
+	// found by solving the curve equation for x = 0..: take y from the square root where it exists
+	k := make([]byte, 32)
+	copy(k, seed[1:])
+	g := c05Aff{x: c05Gx, y: c05Gy}
+	pt := c05RefMult(g, k)
+	if pt.inf {
+		return
+	}
+	enc := c05RefBytes(pt)
+	q, err := new(SM2P256Point).SetBytes(enc)
+	verifAssert(err == nil && verifEqBytes(q.Bytes(), enc), "a canonical encoding decodes and re-encodes to itself")
+	// x + p and y + p where they still fit into 32 bytes
+	for _, off := range []int{1, 33} {
+		v := new(big.Int).SetBytes(enc[off : off+32])
+		v.Add(v, c05P)
+		if v.BitLen() > 256 {
+			continue
+		}
+		bad := append([]byte(nil), enc...)
+		v.FillBytes(bad[off : off+32])
+		_, err := new(SM2P256Point).SetBytes(bad)
+		verifAssert(err != nil, "a coordinate of p or above is rejected")
+	}
+	// a curve point with a tiny ordinate: y0 in 1..40 with x from the cubic is not available in closed
+	// form; tiny abscissa instead: x0 = seed-dependent small value, y = sqrt(x0^3 - 3 x0 + b)
+	x0 := big.NewInt(int64(seed[0]) % 41)
+	rhs := new(big.Int).Exp(x0, big.NewInt(3), c05P)
+	rhs.Sub(rhs, new(big.Int).Mul(big.NewInt(3), x0))
+	rhs.Add(rhs, c05B).Mod(rhs, c05P)
+	y0 := new(big.Int).ModSqrt(rhs, c05P)
+	if y0 != nil {
+		enc := make([]byte, 65)
+		enc[0] = 4
+		x0.FillBytes(enc[1:33])
+		y0.FillBytes(enc[33:])
+		_, err := new(SM2P256Point).SetBytes(enc)
+		verifAssert(err == nil, "a curve point with a tiny abscissa decodes")
+		bad := append([]byte(nil), enc...)
+		new(big.Int).Add(x0, c05P).FillBytes(bad[1:33])
+		_, err = new(SM2P256Point).SetBytes(bad)
+		verifAssert(err != nil, "x + p is rejected (uncompressed)")
+		cmp := make([]byte, 33)
+		cmp[0] = 2 | byte(y0.Bit(0))
+		new(big.Int).Add(x0, c05P).FillBytes(cmp[1:])
+		_, err = new(SM2P256Point).SetBytes(cmp)
+		verifAssert(err != nil, "x + p is rejected (compressed)")
+	}
+}
+
+var c05B, _ = new(big.Int).SetString("28E9FA9E9D9F5E344D5A9E4BCF6509A7F39789F515AB8F92DDBCBD414D940E93", 16)
+
+// p256OrdAdd = (x + y) mod n, p256Add = (x + y) mod p for all reduced operands; p256LessThanP = (x < p)
+func verifH_c05_addlemma() {
+	which := verifParam("which")
+	x, y := verifBytes("x", 32), verifBytes("y", 32)
+	mb := c05NBytes
+	if which == 1 {
+		mb = c05PBytes
+	}
+	verifAssume(verifAll(c05WideLess(x, mb), c05WideLess(y, mb)))
+	x33, y33, m33 := append([]byte{0}, x...), append([]byte{0}, y...), append([]byte{0}, mb...)
+	s := verifWideAdd(x33, y33)
+	d := verifWideSub(s, m33)
+	want := verifIteBytes(d[0] != 0, s, d)[1:]
+	var ex, ey, res p256Element
+	c05SetElem(&ex, x)
+	c05SetElem(&ey, y)
+	if which == 0 {
+		p256OrdAdd((*[4]uint64)(&res), (*[4]uint64)(&ex), (*[4]uint64)(&ey))
+		verifAssert(verifEqBytes(c05ElemBytes(&res), want), "p256OrdAdd = (x + y) mod n for all x, y below n")
+	} else {
+		p256Add(&res, &ex, &ey)
+		verifAssert(verifEqBytes(c05ElemBytes(&res), want), "p256Add = (x + y) mod p for all x, y below p")
+		z := verifBytes("z", 32)
+		var ez p256Element
+		c05SetElem(&ez, z)
+		verifAssert((p256LessThanP(&ez) == 1) == c05WideLess(z, c05PBytes), "p256LessThanP(x) = 1 exactly if x < p")
+	}
+	verifReach("end")
+}
